@@ -125,6 +125,7 @@ def run(chk, fb, tier):
         pw = next((i for i in range(1, b["argc"] + 1) if fb.ty(b["locals"][i]["t"]) == "&str" and b["locals"][i].get("n") == "password"), 1)
         le, chars = C14.utf16le_encoded(fb, h, pw)
         chk.ob(re_, "password-hash:utf16le", le and not chars, where=fb.loc(h), detail="password is hashed as UTF-16 little-endian code units (encode_utf16 + to_le_bytes, here or in a helper): %s; per-char conversion: %s" % (le, chars))
+    C14.rule_password_passthrough(chk, fb, "C15.f", ["helper::crypt::encrypt_sheet_protection", "helper::crypt::encrypt_workbook_protection", "helper::crypt::encrypt_revisions_protection"], 3)
     chk.assume("sha2 implements SHA-512; base64 STANDARD engine is RFC 4648 base64")
     chk.note("not decided: the hash value itself; persistence through save/reload is the reader/writer symmetry rule of C04.b/C06.b")
 
